@@ -501,6 +501,14 @@ pub fn run(ctx: &mut Ctx) {
             check_case(ctx, l, "regression");
         }
     }
+    // every \uXXXX escape: the lexically valid ones (all but the surrogates) must decode to
+    // exactly that scalar value
+    for cp in 0u32..=0xFFFF {
+        if ctx.mine(cp as u64) {
+            check_case(ctx, &format!("\"\\u{cp:04X}\""), "unicode_escape_sweep");
+            check_case(ctx, &format!("\"x\\u{cp:04x}\""), "unicode_escape_sweep");
+        }
+    }
     let (bmax, qmax) = if ctx.quick() { (6, 5) } else { (6, 6) };
     enumerate(ctx, "block-body-8", BLOCK_ALPHABET, "\"\"\"", bmax);
     enumerate(ctx, "quoted-body-10", QUOTED_ALPHABET, "\"", qmax);
